@@ -56,6 +56,13 @@ func kUuid(args []string) (string, string) {
 	uuid.EnableRandPool()
 	uuid.SetRand(cyclic{rnd, new(int)}) // every draw of this case delivers the same 16 bytes
 	id, err := buildDefaultId()
+	// a case of 256 bytes fills the pool exactly once: sixteen consecutive builders get its sixteen slices in order
+	var ids []string
+	for k := 1; err == nil && k < len(rnd)/16; k++ {
+		var more string
+		more, err = buildDefaultId()
+		ids = append(ids, more)
+	}
 	uuid.SetRand(nil)
 	uuid.DisableRandPool() // nothing of the fixed bytes stays in the pool
 	uuid.EnableRandPool()
@@ -66,7 +73,14 @@ func kUuid(args []string) (string, string) {
 	if !idRe.MatchString(id) || id[24] != '4' || !bytes.ContainsRune([]byte("89ab"), rune(id[29])) {
 		oracle = "VIOL c02-record-id not a bracketed version-4 uuid URN: " + sanitize(id)
 	}
-	return hxs(id), oracle
+	out := hxs(id)
+	for _, more := range ids {
+		if !idRe.MatchString(more) && oracle == "ok" {
+			oracle = "VIOL c02-record-id not a bracketed version-4 uuid URN: " + sanitize(more)
+		}
+		out += "|" + hxs(more)
+	}
+	return out, oracle
 }
 
 func kUuidConc(args []string) (string, string) {
@@ -129,7 +143,12 @@ func genUuid(r *rng, n int, tier string, emit func(string, ...string)) {
 		case 2:
 			b[6], b[8] = byte(i), byte(i>>3) // every value of the stamped bytes over a run
 		}
-		stat("uuid-kind", "fixed-draw")
+		if i%8 == 3 {
+			b = r.bytes(256)
+			stat("uuid-kind", "fixed-pool-of-16-draws")
+		} else {
+			stat("uuid-kind", "fixed-draw")
+		}
 		emit("uuid", hx(b))
 	}
 	k := 2
